@@ -532,7 +532,7 @@ pub fn apply_logical(kind: &'static str, m: &mut Message, cx: &FaultCtx, t: &mut
                 let other: Vec<&Account> = cx.accounts.iter().filter(|x| x.access_key != a.access_key).collect();
                 a.access_key = if other.is_empty() || t.chance(3) {
                     // (an access key may itself look like an escape sequence: it is taken literally)
-                    ["AKIDNOSUCHKEY", "AKIDNOSUCHKEY", "AKID%2FNOSUCH", "AKID%252F"][t.below(4)].into()
+                    ["AKIDNOSUCHKEY", "AKIDNOSUCHKEY", "AKID%2FNOSUCH", "AKID%252F", "AK", "", "AKI\u{e9}\u{e9}"][t.below(7)].into()
                 } else {
                     other[t.below(other.len())].access_key.clone()
                 };
